@@ -8,7 +8,8 @@ Open Scope Z_scope.
 Definition plainch (c : Z) : bool := negb (c =? 34) && negb (c =? 9) && negb (c =? 13) && negb (c =? 10).
 Definition int64 (v : Z) : Prop := - 2^63 <= v < 2^63.
 Definition good_rec (r : frec) : Prop :=
-  forallb plainch (r_name r) = true /\ int64 (r_len r) /\ int64 (r_start r) /\ int64 (r_bases r) /\ int64 (r_bytes r).
+  forallb plainch (r_name r) = true /\ int64 (r_len r) /\ int64 (r_start r) /\ int64 (r_bases r) /\ int64 (r_bytes r)
+  /\ geometry_ok r = true.
 
 (** Characters of a printed integer: digits and '-'. *)
 Definition numch (c : Z) : bool := is_digit c || (c =? 45).
@@ -170,9 +171,10 @@ Proof. unfold tsv_body, tsv_pre. destruct (r_name r); reflexivity. Qed.
 Lemma rf_line_ok idx r : good_rec r -> has_name (r_name r) idx = false ->
   rf_line idx (tsv_line r) = Ok (idx ++ [r]).
 Proof.
-  intros (Hn & H1 & H2 & H3 & H4) Hfresh. unfold rf_line.
+  intros (Hn & H1 & H2 & H3 & H4 & Hgeo) Hfresh. unfold rf_line.
   rewrite chomp_line, tsv_body_nonnil, tsv_body_fields by assumption.
-  rewrite Hfresh, !parse_print by assumption. destruct r; reflexivity.
+  rewrite Hfresh, !parse_print by assumption. destruct r; simpl in Hgeo |- *.
+  rewrite Hgeo. reflexivity.
 Qed.
 
 Lemma lines_tsv l rest : Forall good_rec l ->
@@ -255,3 +257,33 @@ Proof.
   - cbn [inc_starts] in H. apply andb_true_iff in H as [Hxy Ht]. rewrite IH by assumption.
     cbn [insert_by_start]. rewrite Hxy. reflexivity.
 Qed.
+
+(** Whatever ReadFrom accepts has passed the geometry validation. *)
+Lemma rf_line_geom idx line idx' :
+  rf_line idx line = Ok idx' -> Forall (fun r => geometry_ok r = true) idx ->
+  Forall (fun r => geometry_ok r = true) idx'.
+Proof.
+  unfold rf_line. destruct (is_nil (chomp line)); [intros H; injection H as <-; auto|].
+  destruct (split_on 9 (chomp line)) as [|f0 [|f1 [|f2 [|f3 [|f4 [|? ?]]]]]]; try discriminate.
+  destruct (has_name f0 idx); [discriminate|].
+  destruct (parse_int f1) as [a|]; [|discriminate].
+  destruct (parse_int f2) as [b|]; [|discriminate].
+  destruct (parse_int f3) as [c|]; [|discriminate].
+  destruct (parse_int f4) as [d|]; [|discriminate].
+  destruct (geometry_ok (mkRec f0 a b c d)) eqn:G; [|discriminate].
+  intros H Hall. injection H as <-. apply Forall_app. split; [assumption|]. constructor; [exact G|constructor].
+Qed.
+
+Lemma rf_fold_geom ls : forall idx idx',
+  rf_fold idx ls = Ok idx' -> Forall (fun r => geometry_ok r = true) idx ->
+  Forall (fun r => geometry_ok r = true) idx'.
+Proof.
+  induction ls as [|l ls IH]; intros idx idx' H Hall.
+  - injection H as <-. assumption.
+  - cbn [rf_fold] in H. destruct (rf_line idx l) as [idx1| | |] eqn:E; try discriminate.
+    cbn [obind] in H. eapply IH; [exact H|]. eapply rf_line_geom; eassumption.
+Qed.
+
+Theorem readfrom_validates tsv idx :
+  readfrom tsv = Ok idx -> Forall (fun r => geometry_ok r = true) idx.
+Proof. intros H. eapply rf_fold_geom; [exact H|constructor]. Qed.
